@@ -1,6 +1,6 @@
 """All contracts, keyed by the simple callee name used in the source (`cls._mul` -> '_mul')."""
-from . import kernels, linalg, pullbacks, methods, composites
-ALL = dict(kernels.REG); ALL.update(linalg.REG); ALL.update(pullbacks.REG); ALL.update(methods.REG); ALL.update(composites.REG)
+from . import kernels, linalg, pullbacks, methods, composites, composites_sym
+ALL = dict(kernels.REG); ALL.update(linalg.REG); ALL.update(pullbacks.REG); ALL.update(methods.REG); ALL.update(composites.REG); ALL.update(composites_sym.REG)
 def tasks_for(property_id):
     out = []
     for key, con in ALL.items():
